@@ -5,6 +5,7 @@ package main
 
 import (
 	"fmt"
+	"regexp"
 	"go/token"
 	"go/types"
 	"strings"
@@ -324,6 +325,19 @@ func stdlibEffects(f *ssa.Function) stdEffect {
 
 func stdlibHandler(f *ssa.Function) stdHandler {
 	n := extName(f)
+	if n == "fmt.Sprintf" {
+		return func(vc *VC, fr *Frame, st *State, x *ssa.Call, args []*Val) *Val {
+			// fmt.Sprintf("%T", v): the name of v's dynamic type (assumed table)
+			if c, ok := x.Call.Args[0].(*ssa.Const); ok && c.Value != nil && c.Value.ExactString() == "\"%T\"" {
+				if v := vc.singleVariadicArg(fr, st, x); v != nil {
+					vc.typeNameAxioms()
+					vc.assumed["fmt.Sprintf(\"%T\", v) returns the Go name of v's dynamic type (table over the dynamic types occurring in the package)"] = true
+					return &Val{T: tString, S: "(type_name (atag " + v.S + "))"}
+				}
+			}
+			return vc.opaqueResult(st, n, x, args)
+		}
+	}
 	if pureOpaque[n] {
 		return func(vc *VC, fr *Frame, st *State, x *ssa.Call, args []*Val) *Val {
 			return vc.opaqueResult(st, n, x, args)
@@ -737,4 +751,58 @@ func substIdent(x SExpr, from, to string) SExpr {
 		return &SQuant{n.Forall, n.Vars, substIdent(n.Body, from, to)}
 	}
 	return x
+}
+
+// singleVariadicArg recognises f(fmt, a) compiled as a one-element []any and
+// returns the element.
+func (vc *VC) singleVariadicArg(fr *Frame, st *State, x *ssa.Call) *Val {
+	if len(x.Call.Args) != 2 {
+		return nil
+	}
+	sl, ok := x.Call.Args[1].(*ssa.Slice)
+	if !ok {
+		return nil
+	}
+	al, ok := sl.X.(*ssa.Alloc)
+	if !ok {
+		return nil
+	}
+	at, ok := types.Unalias(deref(al.Type())).Underlying().(*types.Array)
+	if !ok || at.Len() != 1 {
+		return nil
+	}
+	base := vc.val(fr, st, al)
+	if base.S == "" {
+		return nil
+	}
+	_, h := vc.heap(st, at.Elem())
+	return &Val{T: at.Elem(), S: "(select " + h + " (+ " + base.S + " 0))"}
+}
+
+var byteWordRe = regexp.MustCompile(`\bbyte\b`)
+
+// typeNameAxioms: %T names of the dynamic types of the tag table.
+func (vc *VC) typeNameAxioms() {
+	if vc.tnameAx {
+		return
+	}
+	vc.tnameAx = true
+	vc.u.declareUninterp("type_name", []string{"Int"}, "String")
+	vc.assume("(= (type_name 0) \"<nil>\")")
+	// distinct dynamic types print differently, and no Go type prints as one of the
+	// library's own aliases ("time", "bytes", "[]byte": %T prints time.Time and []uint8)
+	vc.assume("(forall ((a Int) (b Int)) (! (=> (= (type_name a) (type_name b)) (= a b)) :pattern ((type_name a) (type_name b))))")
+	for _, alias := range []string{"time", "bytes", "[]byte", "*time", "*bytes", "*[]byte"} {
+		vc.assume(fmt.Sprintf("(forall ((a Int)) (! (not (= (type_name a) %s)) :pattern ((type_name a))))", smtStr(alias)))
+	}
+	for tg := 1; tg < vc.u.nextTag; tg++ {
+		t, ok := vc.u.tagTypes[tg]
+		if !ok {
+			continue
+		}
+		name := types.TypeString(t, func(p *types.Package) string { return p.Name() })
+		name = strings.ReplaceAll(name, "interface{}", "interface {}")
+		name = byteWordRe.ReplaceAllString(name, "uint8")
+		vc.assume(fmt.Sprintf("(= (type_name %d) %s)", tg, smtStr(name)))
+	}
 }
